@@ -69,7 +69,7 @@ class C03(Spec):
     prop = "C03"
     coq_targets = ["Props/C03.vo"]
     prop_module = "Props.C03"
-    theorems = []
+    theorems = ['C03_preamble', 'C03_presence_bits', 'C03_ext_bit_iff', 'C03_omitted_components', 'C03_decodes', 'C03_refusal_exact', 'C03_refusal_only', 'C03_refusal_complete', 'C03_component_failure']
     builds = [("default", "dev"), ("default", "release")]
     timeout_per_chunk = 600
     xcheck_n = 100
